@@ -21,12 +21,12 @@ vlib.standard_check({
     "harness": "c18",
     "translators": [translate_bitmanip.run],
     "gen_files": ["lean/GateryModel/Gen/BitManip.lean"],
-    "streams": {"quick": [[6000, 50], [15000, 0], [1500, "sig"]], "thorough": [[20000, 50], [2000, 400], [20000, 12], [300000, 0], [6000, "sig"]]},
-    "search": [[20000, 50], [5000, 200], [100000, 0], [3000, "sig"]],
+    "streams": {"quick": [[6000, 50], [15000, 0], [1500, "sig"], [3000, "bytes"]], "thorough": [[20000, 50], [2000, 400], [20000, 12], [300000, 0], [6000, "sig"], [60000, "bytes"]]},
+    "search": [[20000, 50], [5000, 200], [100000, 0], [3000, "sig"], [20000, "bytes"]],
     "signature": signature,
     "eval_key": "ops",
     "nontrivial": lambda t: t.get("ops", 0) - t.get("hist", {}).get("resize", 0) - t.get("hist", {}).get("get", 0) - t.get("hist", {}).get("formatBinary", 0) - t.get("hist", {}).get("formatHex", 0),
-    "rule": "operation sequences on 4 registers of BitVectorState<Default|Extended>; offsets biased to {0,1,7,8,31,32,56,63} mod 64 over 5 words, "
+    "rule": "stream bytes: createDefaultBitVectorState(byte span) and operator==(state, byte span) on arrays of 0..26 bytes with single undefined bits and single flipped bits, preferably in the last partial word, judged by the driver against the bit-array specification directly (no separate model of these two functions); stream sig: integers through the simulation signal handles; operation sequences on 4 registers of BitVectorState<Default|Extended>; offsets biased to {0,1,7,8,31,32,56,63} mod 64 over 5 words, "
             "sizes biased to {0,1,7,8,63,64,65,127,128,129}; non-trivial = every op other than resize/get (each is compared word-for-word with the model "
             "and bit-for-bit with the array spec); literal stream (ops = 0): parseBitVector on generated b/o/x/d/s literals with optional widths "
             "(valid, too narrow, malformed, 20..50 digits) compared with the model (result words or error class) and with the digit-by-digit grammar spec, "
